@@ -477,6 +477,12 @@ func (c *CEnv) callSpec(sp *SpecFn, args []*CVal) *CVal {
 			if a.Nil {
 				a = &CVal{T: c.ex.V.zeroOf(typ)}
 			}
+			if _, isIface := typ.Underlying().(*types.Interface); isIface && a.T.S != SIface && a.Typ != nil {
+				// implicit conversion of a concrete value to the interface type (as Go does at call sites)
+				tn := c.ex.V.typeName(a.Typ)
+				boxTypes[tn] = a.Typ
+				a = &CVal{T: Box(tn, a.T), Typ: typ}
+			}
 			if a.T.S != c.ex.V.sortOf(typ) {
 				c.err("spec %s arg %s: sort %s, want %s", sp.Name, p.Name, a.T.S.Name, c.ex.V.sortOf(typ).Name)
 			}
@@ -516,6 +522,9 @@ func (c *CEnv) call(e *Expr) *CVal {
 		var args []*Term
 		for _, a := range e.Args {
 			args = append(args, ToReal(c.eval(a).T))
+		}
+		if name == "pow" {
+			return &CVal{T: PowTerm(args[0], args[1])}
 		}
 		return &CVal{T: App(name, SReal, args...)}
 	}
